@@ -943,23 +943,13 @@ func TestPropBookkeepingSeq(t *testing.T) {
 		m.maxLast = int64(rapid.IntRange(1, 5).Draw(t, "maxLast"))
 		m.e = vfNewEnv(vfOpts{cap: m.cap, perAcc: m.perAcc, maxLast: m.maxLast})
 		defer m.e.close()
-		for i, n := 0, rapid.IntRange(1, vfSteps()).Draw(t, "steps"); i < n; i++ {
+		for i, n := 0, rapid.IntRange(1, 50).Draw(t, "steps"); i < n; i++ {
 			m.step()
 		}
 		if m.nontrivial {
 			lib.NonTrivialCase(m.render())
 		}
 	})
-}
-
-func vfSteps() int {
-	if v := os.Getenv("VERIF_STEPS"); v != "" {
-		var n int
-		if _, err := fmt.Sscan(v, &n); err == nil && n > 0 {
-			return n
-		}
-	}
-	return 50
 }
 
 // ---------------------------------------------------------------- C21 concurrent variant
